@@ -5,7 +5,7 @@ import XrsVerif.Proofs.ILProxPixel
   function (prologue; loop; return) refines it -- for the template `lineBody N` and hence, by
   `proximityLine_is_template`, for `Gen.IL.proximityLine`.
 -/
-namespace XrsVerif.IL
+namespace XrsVerif.IL.Px
 open XrsVerif XrsVerif.Prox
 variable {F : Type} [Fl F]
 set_option linter.unusedSectionVars false
@@ -169,4 +169,4 @@ theorem proximityLine_refines (fuel : Nat) (s : State F) (m0 : LineSt) (hs : s.c
   obtain ⟨h1, h2, h3⟩ := lineBody_refines N0_wf fuel s m0 hs env rel
   exact ⟨h1, h3, h2⟩
 
-end XrsVerif.IL
+end XrsVerif.IL.Px
